@@ -20,6 +20,8 @@ CHECKS = {
          "Packfile type+length header round-trips for every object length u in [1,2^64) and type 1..3 (u=0 is a known finding). Other codecs: see obligations in the evidence; lengths beyond the stated bounds (64 KiB cells) are only covered where the obligation says so.", "4 C06"),
  "C07": ("model_checking", "bounded symbolic execution of ObjectSender -> packfile -> ObjectReceiver with the packfile size limit as one 64-bit SMT variable",
          "Three repository scenarios (chain, 255/256-row tables sharing a block, fork+merge with a re-used table) x destination pre-populated (nothing / first block / first commit) x EVERY maxPackfileSize: byte-identical commits/tables/blocks, block indices, table index and profile rebuilt identically to ingest's, receive order (blocks < table < commit, parents first), done <=> nothing left, a commit with a missing parent is refused. HTTP/gzip are outside.", "4 C07"),
+ "C08": ("model_checking", "bounded symbolic execution of ClosedSetsFinder (Process/CommitsToSend/TablesToSend over the real CommitsQueue) on all DAGs up to n commits with symbolic timestamps and symbolic ref/want/have sets",
+         "All DAG shapes with n <= 3 (quick) / 4 (thorough) commits, refs/wants/haves as symbolic subsets (incl. an unknown have), 1-2 rounds, depth 0..2: sent + ancestors(acks) cover every ancestor of every want; parents common or earlier; nothing unreachable from the wants; tables exactly for sent commits within depth; unreachable wants refused; step budget as termination bound. Plus one concrete 10/14-commit ladder history for the polynomial-size claim (a single evaluation, known finding).", "4 C08"),
  "C11": ("model_checking", "bounded symbolic execution of IsAncestorOf / CommitsQueue / SeekCommonAncestor over all DAGs up to n commits with 64-bit symbolic timestamps",
          "All DAG shapes with n <= 3 (quick) / 4 (thorough) commits, timestamps as solver variables (equal, reversed, skewed): ancestor <=> reachable; walk visits each ancestor once; merge base is a common ancestor, is the input that is an ancestor of the others, found iff one exists. GetCommit replaced by a table lookup under gosym (real GetCommit in the native replay).", "4 C11"),
  "C12": ("model_checking", "bounded exhaustive exploration of repository shapes through symbolic execution of the real prune.Prune",
@@ -38,7 +40,6 @@ CHECKS = {
 
 NOT_APPLICABLE = {
  "C05": "not yet built in this revision (planned: RowResolver/CompareColumns kernel per DESIGN section 4)",
- "C08": "not yet built in this revision (planned: ClosedSetsFinder harness per DESIGN section 4)",
  "C09": "end-to-end fetch/push needs HTTP+gzip+JSON and a server that is not in this repository; the mechanisms are decided under C07, C08, C10, C11 (DESIGN section 5)",
  "C10": "not yet built in this revision (planned: saveFetchedRefs / identifyUpdates gates per DESIGN section 4)",
  "C13": "not yet built in this revision (planned: symbolic crash index over ingest / receive / prune per DESIGN section 4)",
